@@ -285,7 +285,13 @@ def mkset(f, ek='char'):
     return SSet(LAM(j, body), ek, None)
 
 
+_WITNESS = []       # witnesses for the existential quantifiers of a GOAL being evaluated (never for an assumption): consumed outside-in
+
+
 def exists(f, lo, hi):
+    if _WITNESS:
+        w = _WITNESS.pop(0)
+        return And(lo <= w, w < hi, f(w))       # proving the instance proves the existential statement
     if not _sym(lo, hi):
         vals = [f(j) for j in range(lo, hi)]
         return Or(*vals) if _sym(*vals) else any(vals)
